@@ -1,0 +1,21 @@
+//go:build verif
+
+// Contracts for the router authorisation middleware (C13). Compiled only under the build tag "verif".
+
+package util
+
+// ghost view of the response written through gin and of the verdict of NFContext.AuthorizationCheck
+// (updated by the assumed contracts of gin.Context and of the interface method)
+var ghostHttpStatus int
+var ghostHttpBody bool
+var ghostHttpWrites int
+var ghostAborted bool
+var ghostAuthRejected bool
+
+// A request whose token is rejected is answered 401 and the handler chain is aborted (no processing);
+// an accepted request gets no response from the middleware.
+//@ func (*RouterAuthorizationCheck).Check [C13]
+//@   requires rac != nil && c != nil && c.Request != nil && chfContext != nil && !ghostAborted && ghostHttpWrites >= 0 && ghostHttpWrites < 1<<40
+//@   ensures ghostAuthRejected ==> ghostHttpStatus == 401 && ghostAborted && ghostHttpWrites == old(ghostHttpWrites)+1
+//@   ensures !ghostAuthRejected ==> !ghostAborted && ghostHttpWrites == old(ghostHttpWrites)
+//@   modifies global(&ghostHttpStatus), global(&ghostHttpBody), global(&ghostHttpWrites), global(&ghostAborted), global(&ghostAuthRejected)
